@@ -372,11 +372,24 @@ def h_cli_layer(prog):
             ins(r"scrut::executors::context::ContextBuilder::config", cb_config)
 
     def setup(ctx):
-        args = c20.mk_setup(0, 0, [c20.Doc(0, 1, 0, 0, "ok", "C")])(ctx)
+        # the document has a front-matter prepend and append document: their test cases go through the same executor call
+        args = c20.mk_setup(0, 0, [c20.Doc(0, 1, 1, 1, "ok", "CCC")])(ctx)
         tcc = sym_tcc(ctx, "t", 1)
         doc = ctx.notes["documents"][0]
         tc = field_of(doc, "testcases").items[0]
         tc.fields[STRUCTS["TestCase"].index("config")] = tcc
+        extra_layers = {}
+        for key, tag in (("path:p", "pre"), ("path:q", "app")):
+            base = ctx.notes["extra"][key]
+            cfg = sym_tcc(ctx, tag, 0)
+            extra_layers[tag] = cfg
+
+            def build(c, base=base, cfg=cfg):
+                d = base(c)
+                field_of(d, "testcases").items[0].fields[STRUCTS["TestCase"].index("config")] = cfg
+                return d
+            ctx.notes["extra"][key] = build
+        ctx.notes["extra_layers"] = extra_layers
         dcfg = field_of(doc, "config")
         doc_total = sym_opt(ctx, "doc_total", sym_dur(ctx, "doc_total_v"))
         dcfg.fields[STRUCTS["DocumentConfig"].index("total_timeout")] = doc_total
@@ -401,9 +414,13 @@ def h_cli_layer(prog):
         if kind != "return":
             return False
         seen = ctx.notes.get("seen_configs")
-        if not seen or len(seen) != 1:
+        if not seen or len(seen) != 3:
             return False
-        got, t, cli = seen[0], ctx.notes["layers"]["test"], ctx.notes["cli"]
+        titles = ctx.notes["executed_titles"][0]
+        by_title = dict(zip(titles, seen))
+        if sorted(by_title) != ["a0", "p0", "q0"]:
+            return False
+        got, t, cli = by_title["a0"], ctx.notes["layers"]["test"], ctx.notes["cli"]
         from mir_exec import mk_bool
         osc = ENUMS["OutputStreamControl"]
         conds = []
@@ -421,6 +438,15 @@ def h_cli_layer(prog):
                 conds.append(z_or(alts))
             else:
                 conds.append(opt_same(ctx, field_of(got, key), want))
+        # the test cases of the prepend / append documents get the command-line layer just the same
+        for title, tag in (("p0", "pre"), ("q0", "app")):
+            g2, t2 = by_title[title], ctx.notes["extra_layers"][tag]
+            for key in SCALARS:
+                want = field_of(t2, key)
+                if key in ("output_stream", "keep_crlf"):
+                    conds.append(z_or([opt_same(ctx, field_of(g2, key), spec_or(ctx, c, want)) for c in (cli_os if key == "output_stream" else cli_crlf)]))
+                else:
+                    conds.append(opt_same(ctx, field_of(g2, key), want))
         # the test case's own variables survive (the environment of init_test_file is empty in this harness)
         probe = deref(field_of(t, "environment").entries[0][0]).chars[0]
         fr, vr = env_lookup(ctx, field_of(got, "environment"), probe)
@@ -434,9 +460,10 @@ def h_cli_layer(prog):
         want_total = spec_or(ctx, SymOpt(ts.present, Agg("Duration", None, [mk_int(z3.BV2Int(ts.fields[0].z()) * 10 ** 9, "nat")])), ctx.notes["layers"]["doc_total"])
         conds.append(opt_same(ctx, field_of(dgot, "total_timeout"), want_total))
         return z_and(conds)
-    h = e2.Harness("cli_layer_in_test_command", c20.drive, [("1 document, 1 test case, symbolic inline configuration and flags", setup)], post, native=None, judge=None,
+    h = e2.Harness("cli_layer_in_test_command", c20.drive, [("1 document with a prepend and an append document, 1 test case each, symbolic inline configurations and flags", setup)], post, native=None, judge=None,
                    describe="what reaches the executor: output_stream / keep_crlf from the command-line flag if given else from the test case; every other "
-                            "key and the test case's variables unchanged; total_timeout = --timeout-seconds if given else the document's",
+                            "key and the test case's variables unchanged — for the document's own test case and for those of its prepend / append documents; "
+                            "total_timeout = --timeout-seconds if given else the document's",
                    bound="all inline configurations (every key set / unset, any value; 1 variable), all admissible flag combinations, any --timeout-seconds < 10^6")
     h.models_cls = CliModels
     return h
@@ -505,15 +532,7 @@ def h_exec_layer(prog):
     return h
 
 
-def cli_layer_native(inline, flags):
-    """real `scrut test -r json` on a failing one-test document with the inline configuration and flags of a witness → the configuration
-    scrut reports for the test case, and the one the statement prescribes"""
-    import json
-    import os
-    import shutil
-    import subprocess
-    import tempfile
-    from common import SCRUT_BIN
+def inline_text(inline):
     parts = []
     if inline.get("keep_crlf") is not None:
         parts.append("keep_crlf: %s" % ("true" if inline["keep_crlf"] else "false"))
@@ -523,28 +542,60 @@ def cli_layer_native(inline, flags):
         parts.append("skip_document_code: %d" % inline["skip_document_code"])
     if inline.get("strip_ansi_escaping") is not None:
         parts.append("strip_ansi_escaping: %s" % ("true" if inline["strip_ansi_escaping"] else "false"))
+    return " {%s}" % ", ".join(parts) if parts else ""
+
+
+def cli_layer_native(inline, flags, pre=None, app=None):
+    """real `scrut test -r json` on a failing one-test document (optionally with a prepend and an append document, one failing test case each)
+    with the inline configurations and flags of a witness → per test case the configuration scrut reports, and the one the statement prescribes"""
+    import json
+    import os
+    import shutil
+    import subprocess
+    import tempfile
+    from common import SCRUT_BIN
+    layers = {"a0": inline}
+    if pre is not None:
+        layers["p0"] = pre
+    if app is not None:
+        layers["q0"] = app
     tmp = tempfile.mkdtemp(prefix="verif-c16-")
     try:
+        fm = []
+        if pre is not None:
+            fm.append("prepend: [pre.md]")
+        if app is not None:
+            fm.append("append: [app.md]")
+        block = lambda title, inl: "%s\n\n```scrut%s\n$ echo hello\nnope\n```\n" % (title, inline_text(inl))
         with open(os.path.join(tmp, "d.md"), "w") as fh:
-            fh.write("probe\n\n```scrut%s\n$ echo hello\nnope\n```\n" % (" {%s}" % ", ".join(parts) if parts else ""))
+            fh.write(("---\n%s\n---\n\n" % "\n".join(fm) if fm else "") + block("a0", inline))
+        if pre is not None:
+            open(os.path.join(tmp, "pre.md"), "w").write(block("p0", pre))
+        if app is not None:
+            open(os.path.join(tmp, "app.md"), "w").write(block("q0", app))
         argv = [SCRUT_BIN, "test", "-r", "json", "d.md"]
         for name in ("combine_output", "no_combine_output", "keep_output_crlf", "no_keep_output_crlf"):
             if flags.get(name):
                 argv.append("--" + name.replace("_", "-"))
         r = subprocess.run(argv, cwd=tmp, stdout=subprocess.PIPE, stderr=subprocess.PIPE, text=True, timeout=60)
         try:
-            cfg = json.loads(r.stdout)[0]["testcase"]["config"]
+            cfgs = {o["testcase"]["title"]: o["testcase"]["config"] for o in json.loads(r.stdout)}
         except Exception:
             return None, None, {"argv": argv[1:], "exit": r.returncode, "stdout": r.stdout[-300:], "stderr": r.stderr[-300:]}
     finally:
         shutil.rmtree(tmp, ignore_errors=True)
-    want = {}
+    got, want = {}, {}
     os_cli = [x for x, f in (("stdout", "no_combine_output"), ("combined", "combine_output")) if flags.get(f)]
-    want["output_stream"] = os_cli or [(inline.get("output_stream") or "Stdout").lower()]
     crlf_cli = [x for x, f in ((False, "no_keep_output_crlf"), (True, "keep_output_crlf")) if flags.get(f)]
-    want["keep_crlf"] = crlf_cli or [inline["keep_crlf"] if inline.get("keep_crlf") is not None else False]
-    got = {"output_stream": cfg.get("output_stream"), "keep_crlf": cfg.get("keep_crlf", False)}
-    return got, want, {"argv": argv[1:], "config": cfg}
+    for title, inl in layers.items():
+        cfg = cfgs.get(title)
+        if cfg is None:
+            return None, None, {"argv": argv[1:], "configs": cfgs}
+        want[title + ".output_stream"] = os_cli or [(inl.get("output_stream") or "Stdout").lower()]
+        want[title + ".keep_crlf"] = crlf_cli or [inl["keep_crlf"] if inl.get("keep_crlf") is not None else False]
+        got[title + ".output_stream"] = cfg.get("output_stream")
+        got[title + ".keep_crlf"] = cfg.get("keep_crlf", False)
+    return got, want, {"argv": argv[1:], "configs": cfgs}
 
 
 def run_cli_layer(rep, tier):
@@ -557,11 +608,14 @@ def run_cli_layer(rep, tier):
     for model, r in res.raw_witnesses[:6]:
         inline = tcc_to_json(r.ctx.notes["layers"]["test"], model)
         flags = {k: bool(z3.is_true(model.eval(v.z(), model_completion=True))) for k, v in r.ctx.notes["cli"].items() if k != "timeout_seconds"}
-        got, want, obs = cli_layer_native(inline, flags)
-        what = "inline configuration %s with flags %s" % ({k: v for k, v in inline.items() if v not in (None, [])}, [k for k, v in flags.items() if v])
+        pre = tcc_to_json(r.ctx.notes["extra_layers"]["pre"], model)
+        app = tcc_to_json(r.ctx.notes["extra_layers"]["app"], model)
+        got, want, obs = cli_layer_native(inline, flags, pre, app)
+        short = lambda d: {k: v for k, v in d.items() if v not in (None, [])}
+        what = "inline configurations %s (own) / %s (prepend) / %s (append) with flags %s" % (short(inline), short(pre), short(app), [k for k, v in flags.items() if v])
         if got is not None and any(got[k] not in want[k] for k in got):
             rep.violation("cli-layer:" + "+".join(k for k in got if got[k] not in want[k]),
-                          "`scrut test` on a test case with %s runs it with %s, the command line / test case prescribe %s" % (what, got, want),
+                          "`scrut test` on test cases with %s runs them with %s, the command line / test case prescribe %s" % (what, got, want),
                           {"kind": "scrut-test-run", "observation": obs, "harness": h.name})
         else:
             rep.violation("cli-layer:mir-only", "commands::test::Args::run hands the executor a configuration that is not `command line over test case` for %s "
@@ -575,7 +629,7 @@ def run_cli_layer(rep, tier):
     rows = [({}, {}), ({"output_stream": "Stderr"}, {"combine_output": True}), ({"keep_crlf": True}, {"no_keep_output_crlf": True}),
             ({"output_stream": "Combined", "keep_crlf": True}, {}), ({}, {"no_combine_output": True, "keep_output_crlf": True})]
     for inline, flags in rows:
-        got, want, obs = cli_layer_native(inline, flags)
+        got, want, obs = cli_layer_native(inline, flags, {"output_stream": "Stderr"}, {"keep_crlf": True})
         if got is None or any(got[k] not in want[k] for k in got):
             bad += 1
             rep.violation("cli-layer:native", "`scrut test` with inline %s and flags %s runs the test case with %s, prescribed %s" % (inline, flags, got, want),
